@@ -85,6 +85,8 @@ def gen_program(rng, ndex=None, shared_strings=True):
             if code and rng.random() < 0.3:
                 code.append(code[rng.randrange(len(code))])      # the same reference again at another offset
             m["code"] = code
+            if rng.random() < 0.08:                              # an abstract method: no code item
+                m["code"], m["abstract"] = [], True
     k = ndex or rng.choice((1, 1, 2, 2, 3))
     k = min(k, len(classes))
     parts = [[] for _ in range(k)]
@@ -123,7 +125,9 @@ def build_dexes(prog):
     from tools.writers.dexwriter import DexBuilder, Code
     out = []
     for part in prog["dex"]:
-        b = DexBuilder()
+        n = prog.get("bulk", 0)             # that many types, field ids and method ids nothing refers to, sorting before all others
+        pad = ["LA%05d;" % j for j in range(n)]
+        b = DexBuilder(extra_types=pad, extra_fields=[("LA00000;", t, "I") for t in pad], extra_methods=[("LA00000;", t, "V", ()) for t in pad])
         for c in part:
             k = b.add_class(c["name"], access=c.get("access", 1))
             for fn, ft in c["fields"]:
@@ -133,6 +137,10 @@ def build_dexes(prog):
                 for i in m["code"]:
                     units += ins_units(i)
                 units.append(0x000E)
+                if m.get("abstract"):                      # no code item at all
+                    assert not m["code"]
+                    k.add_method(m["name"], m["ret"], m["params"], access=0x401, direct=False, code=None)
+                    continue
                 k.add_method(m["name"], m["ret"], m["params"], access=1, direct=False, code=Code(4, 1 + len(m["params"]), 4, units))
         out.append(b.build())
     return out
@@ -318,6 +326,11 @@ def gen(rng, tier, ctx):
     n = 220 if tier == "thorough" else 40
     for _ in range(n):
         cases.append(gen_program(rng))
+    # a full primary DEX: the ids of everything the code refers to lie above 0x7fff (and, for one program, astride it)
+    for k in range(4 if tier == "thorough" else 2):
+        p = gen_program(rng, ndex=1)
+        p["bulk"] = 0x8000 + 40 if k % 2 == 0 else 0x8000 - 3 - rng.randrange(4)
+        cases.append(p)
     return cases
 
 
@@ -332,7 +345,7 @@ def canon(res):
 
 
 def stats(cases, results):
-    d = {"programs": len(cases), "dex_files": 0, "classes": 0, "methods": 0, "invokes": 0, "array_receivers": 0, "strings": 0,
+    d = {"programs": len(cases), "programs_with_ids_above_0x7fff": sum(1 for p in cases if p.get("bulk")), "dex_files": 0, "classes": 0, "methods": 0, "invokes": 0, "array_receivers": 0, "strings": 0,
          "class_refs": 0, "field_accesses": 0, "cross_class_field_accesses": 0, "cross_dex_field_accesses": 0}
     for p in cases:
         d["dex_files"] += len(p["dex"])
@@ -512,6 +525,9 @@ FIELD_KEYS = {"frefs", "frefs_m", "nfa", "fobjs"}
 
 def gen_c16(rng, tier, ctx):
     cases = gen(rng, "quick", ctx)[:3]
+    cases.append({"dex": [[{"name": "Lp/A;", "fields": [("f0", "I")], "methods": [{"name": "m0", "ret": "V", "params": (), "code": [
+        ("invoke", 0x72, "Lp/B;", "m1", "V", ()), ("field", 0x60, "Lp/B;", "g", "S"), ("cclass", "Lp/B;")]}]}],
+        [{"name": "Lp/B;", "access": 0x601, "fields": [("g", "S")], "methods": [{"name": "m1", "ret": "V", "params": (), "code": [], "abstract": True}]}]]})
     for _ in range(60 if tier == "thorough" else 10):
         p = gen_program(rng)
         classes = [c for part in p["dex"] for c in part]
@@ -519,6 +535,13 @@ def gen_c16(rng, tier, ctx):
         parts = [[] for _ in range(nd)]
         for j, c in enumerate(classes):
             parts[j % nd if j < nd else rng.randrange(nd)].append(c)
+        if nd >= 2 and rng.random() < 0.6:      # a DEX file without a single code item: interfaces, abstract methods, fields
+            bare = rng.randrange(nd)
+            others = [c for j, part in enumerate(parts) if j != bare for c in part]
+            for c in parts[bare]:
+                c["access"] = rng.choice((0x601, 0x401))
+                for m in c["methods"]:
+                    m["code"], m["abstract"] = [], True
         cases.append({"dex": parts})
     return cases
 
@@ -566,6 +589,7 @@ def classify_c16(case, res, why):
 def stats_c16(cases, results):
     d = stats(cases, [])
     d["add_orders_run"] = sum(len(r["runs"]) for r in results if not isinstance(r, Err))
+    d["splits_with_a_dex_without_code"] = sum(1 for c in cases if any(all(m.get("abstract") for k in part for m in k["methods"]) for part in c["dex"]))
     d["split_sizes"] = {}
     for c in cases:
         d["split_sizes"][str(len(c["dex"]))] = d["split_sizes"].get(str(len(c["dex"])), 0) + 1
